@@ -12,7 +12,7 @@ from ..famrun import new_res
 
 ID = 'C18'
 LEVEL = 'model_checking'
-RULE = ('(1) streams: every text of <= 4 lines (thorough 5) where each line is one of 6 indentations x 8 bodies (a, (, ), (a, a), '
+RULE = ('(1) streams: every text of <= 4 lines (thorough 5) where each line is one of 7 indentations x 8 bodies (a, (, ), (a, a), '
         'a(, blank, comment-only; lines 3.. draw from 4 bodies), with and without a final newline, bracket depth never negative, '
         'lexed through a concrete Indenter (tab_len 8 and 4) under two spellings of the newline terminal (plain, and python.lark\'s '
         'newline-or-comment token): the INDENT/DEDENT/NAME/paren sequence (or DedentError) must equal a reference indentation '
@@ -26,7 +26,7 @@ ASSUMPTIONS = ['tabs counted as tab_len columns (coincides with CPython for tabs
                'comment-only lines under the plain spelling (comments %ignored separately) are judged against the token-level rule of the statement, not against CPython']
 DEADLINE = {'quick': 900, 'thorough': 3 * 3600}
 
-INDENTS = ['', ' ', '  ', '    ', '\t', '\t  ']
+INDENTS = ['', ' ', '  ', '    ', '\t', '\t  ', ' \t']      # the last one: a blank *before* a tab (tab_len per tab != tab stops)
 BODIES = ['a', '(', ')', '(a', 'a)', 'a(', '', '# c']
 BODIES_TAIL = ['a', '(', ')', '']
 
@@ -195,6 +195,7 @@ def part1(nlines, lo, hi, res, only=None):
             last_ind, last_body = lines[-1]
             ws_only_last = (not final_nl) and last_body == '' and last_ind != '' and len(lines) > 1
             has_comment = any(b.startswith('#') for _, b in lines)
+            space_tab = any(' \t' in i for i, _ in lines)     # CPython rounds a tab up to the next multiple of 8: not comparable
             py = cpython(text)
             for (spell, tab), (p, ind) in parsers.items():
                 if only and (only['spelling'], only['tab_len']) != (spell, tab):
@@ -202,7 +203,7 @@ def part1(nlines, lo, hi, res, only=None):
                 comments_are_lines = spell == 'plain'
                 want = ref_lines(lines, tab, comments_are_lines)
                 # cross-validation of the reference against CPython (harness check, not a finding)
-                if py is not None and tab == 8 and not comments_are_lines or (py is not None and tab == 8 and not has_comment):
+                if (py is not None and tab == 8 and not space_tab) and (not comments_are_lines or not has_comment):
                     refpy = ref_lines(lines, 8, False)
                     if _strip(refpy) != _strip(py) and not ws_only_last:
                         res['errors'] = res.get('errors', []) + ['reference automaton disagrees with CPython tokenize on %r: %r vs %r' % (text, refpy, py)]
